@@ -253,7 +253,7 @@ def _fsum(a):
 
 
 def _describe(case):
-    keys = ['env', 'model', 'els', 'N', 'profile', 'bc', 'it', 'calls', 'temp', 'rule', 'bcapi', 'nsteps', 'cv']
+    keys = ['env', 'model', 'els', 'N', 'profile', 'bc', 'it', 'calls', 'temp', 'rule', 'bcapi', 'nsteps', 'cv', 'record']
     return ' '.join('%s=%s' % (k, case[k]) for k in keys if k in case)
 
 
@@ -294,6 +294,8 @@ def _run_cfg(case):
     xmin = m.constraints.minComposition
     bcs = case['bc']
     any_comp = any('c' in b for b in bcs)
+    if case.get('record') is False:
+        m.disableRecording()
     mon = Monitor(m, case['it'], want_flux=(case['it'] == 'euler' and any_comp))
     m.addCouplingModel(mon)
     sim = case['nsteps'] * dt0
@@ -423,9 +425,11 @@ def _run_cfg(case):
             print('  call %d step %3d t=%.9g dt=%.6g  mesh sums before %s  un-clipped after %s  recorded %s' % (
                 s['call'], k, s['t'], s['dt'], ['%.15g' % _fsum(r) for r in s['pre']],
                 ['%.15g' % _fsum(r) for r in s['out']], ['%.15g' % _fsum(r) for r in snaps[k][1]]))
-    # recorded history
+    # recorded history (runs with recording switched off keep no history; every other oracle applies to them unchanged)
     rt, rx = m._recordedTime, m._recordedX
-    if rt is None or len(rt) != len(rx):
+    if case.get('record') is False:
+        pass
+    elif rt is None or len(rt) != len(rx):
         bad('record/shape', 'recorded arrays missing or of different length')
     else:
         for i in range(1, len(rt)):
@@ -635,6 +639,17 @@ def run(ctx):
                         if model == 'homog':
                             c['rule'] = 'wiener upper'
                         acases.append(c)
+    # recording switched off (conservation, fixed nodes and bounds do not depend on keeping a history)
+    for model in ['single', 'homog']:
+        for els in ['bin', 'tern']:
+            for first in (['f0', 'f0'], ['c', '+J'], ['-J', '+J']):
+                bc = [first] if els == 'bin' else [first, ['f0', 'f0']]
+                for it in its:
+                    c = {'model': model, 'els': els, 'N': 5, 'profile': 'linear', 'bc': bc, 'it': it, 'calls': 2,
+                         'temp': 'iso', 'nsteps': nsteps, 'record': False}
+                    if model == 'homog':
+                        c['rule'] = 'wiener upper'
+                    acases.append(c)
     # boundary values at the ends of the composition range: 0 (all four model/element combinations) and 1 (binary single-phase)
     for model in ['single', 'homog']:
         for els in ['bin', 'tern']:
